@@ -26,7 +26,7 @@ ASSUMPTIONS = [
     'because which security blocks each fragment must carry is not stated by the property',
 ]
 DECIDING = ['bp.app.fragment:Fragment._create', 'bp.agent:Agent.send_bundle', 'bp.agent:Agent._do_tx_step']
-REQUIRED_OBS = ['sends', 'fragmenting_sends', 'fragments_checked', 'unchanged_sends_checked', 'impossible_sends']
+REQUIRED_OBS = ['sends', 'fragmenting_sends', 'fragments_checked', 'unchanged_sends_checked', 'impossible_sends', 'unnumbered_sends']
 
 NODE = 'dtn://me/'
 
